@@ -159,6 +159,7 @@ def localize_row(ctx, vh, model, case):
 
 def run(ctx):
     ctx.check_props()
+    gen_fail = ctx.genlink_goarith("GoLinkC08")    # the Go arithmetic / constants are re-translated from the source and the GEN_* theorems re-checked
     model = ctx.build_model()
     vh = ctx.build_harness()
     if ctx.replay:
@@ -183,6 +184,7 @@ def run(ctx):
             if op.endswith("_row"):
                 c, i, m, why = localize_row(ctx, vh, model, c)
             ctx.violation("%s: %s" % (c, why), {"cases": [c], "impl": i, "model": m, "class": {"op": c.split()[1]}})
+    ctx.report_genlink(gen_fail, "GoLinkC08")
     return ctx.finish(
         "proof",
         rule="cases from the seeded generator (all 65536 inverses; full rows of Times/Div for structured+random constants and their inverses; individual products/quotients; Pow over exponent classes; structured/random 64-bit polynomials); a row counts as one case; non-trivial = no operand is 0 or 1",
